@@ -33,10 +33,16 @@ func VerifC16_Labels() {
 		zz.GhostStr("prom.newvec", 1, 2) == TestNameLabel && zz.GhostStr("prom.newvec", 1, 3) == StageLabel && zz.GhostStr("prom.newvec", 1, 4) == ResultLabel)
 
 	res := []ResultType{SuccessResult, FailedResult, DroppedResult}[zz.Choice("result", 3)]
-	inst.RecordIterationResult("scn", res, 17)
-	inst.RecordSetupResult("scn", Result(zz.Bool("setupFailed")), 23)
+	// durations are ARBITRARY non-negative nanosecond counts - a dropped iteration is recorded with duration 0 - and
+	// every recorded outcome must produce its sample whatever the duration
+	d, ds := zz.Int64("dur"), zz.Int64("setupDur")
+	zz.Assume(d >= 0)
+	zz.Assume(ds >= 0)
+	inst.RecordIterationResult("scn", res, d)
+	inst.RecordSetupResult("scn", Result(zz.Bool("setupFailed")), ds)
 	nobs := zz.GhostLen("prom.observe")
 	zz.Cover("C16.labels.reached")
+	zz.CoverIf("C16.labels.zero_duration_sample", enabled && d == 0)
 	if !enabled {
 		zz.Assert("C16.labels.disabled_records_only_setup", nobs == 1)
 	} else {
